@@ -27,17 +27,50 @@ import (
 
 type gatedStorage struct {
 	storage.FullStorage
-	mu      sync.Mutex
-	armed   bool
-	substr  string
-	skip    int
-	parked  chan struct{}
-	release chan struct{}
+	mu        sync.Mutex
+	armed     bool
+	afterRead bool // park AFTER the underlying read (the caller then returns the value read before it was parked)
+	anyCaller bool // do not require handleTunnelOpen on the caller's stack
+	substr    string
+	skip      int
+	parked    chan struct{}
+	release   chan struct{}
+	// one-shot gate on Set (parks BEFORE the write)
+	setArmed   bool
+	setSubstr  string
+	setParked  chan struct{}
+	setRelease chan struct{}
+}
+
+func (g *gatedStorage) armAfterRead(substr string) {
+	g.mu.Lock()
+	g.armed, g.afterRead, g.anyCaller, g.substr, g.skip = true, true, true, substr, 1
+	g.parked, g.release = make(chan struct{}), make(chan struct{})
+	g.mu.Unlock()
+}
+func (g *gatedStorage) armSet(substr string) {
+	g.mu.Lock()
+	g.setArmed, g.setSubstr = true, substr
+	g.setParked, g.setRelease = make(chan struct{}), make(chan struct{})
+	g.mu.Unlock()
+}
+func (g *gatedStorage) Set(key string, value interface{}, ttl time.Duration) error {
+	g.mu.Lock()
+	if g.setArmed && strings.HasSuffix(key, g.setSubstr) {
+		g.setArmed = false
+		p, r := g.setParked, g.setRelease
+		g.mu.Unlock()
+		close(p)
+		<-r
+		return g.FullStorage.Set(key, value, ttl)
+	}
+	g.mu.Unlock()
+	return g.FullStorage.Set(key, value, ttl)
 }
 
 func (g *gatedStorage) arm(substr string, nth int) {
 	g.mu.Lock()
-	g.armed, g.substr, g.skip = true, substr, nth
+	g.armed, g.afterRead, g.anyCaller, g.substr, g.skip = true, false, false, substr, nth
 	g.parked, g.release = make(chan struct{}), make(chan struct{})
 	g.mu.Unlock()
 }
@@ -50,12 +83,18 @@ func (g *gatedStorage) Get(key string) (interface{}, error) {
 	g.mu.Lock()
 	// only the request's own synchronous flow (SessionManager.handleTunnelOpen on the calling goroutine's stack) is gated: the
 	// asynchronous notifyTargetClientToOpenTunnel of a just-created bridge reads the same mapping and must not be parked instead
-	if g.armed && strings.HasSuffix(key, g.substr) && onStack("handleTunnelOpen") {
+	if g.armed && strings.HasSuffix(key, g.substr) && (g.anyCaller || onStack("handleTunnelOpen")) {
 		g.skip--
 		if g.skip <= 0 {
 			g.armed = false
-			p, r := g.parked, g.release
+			p, r, after := g.parked, g.release, g.afterRead
 			g.mu.Unlock()
+			if after {
+				v, err := g.FullStorage.Get(key)
+				close(p)
+				<-r
+				return v, err
+			}
 			close(p)
 			<-r
 			return g.FullStorage.Get(key)
@@ -375,6 +414,142 @@ func runRace(w *world, in raceIn) (out raceOut) {
 		if !s.ent && ackOf(s) == 1 {
 			fail("race-ack", fmt.Sprintf("request %s (%s, %s, secret %s) is not entitled to the mapping it named but was acknowledged with success", label[k], s.rr.Who, s.rr.Mid, s.rr.Secret))
 		}
+	}
+	return out
+}
+
+// ---------------------------------------------------------------------------------------------------------------
+// stale read after a completed update (deterministic witness): GenericRepository.Get wraps every read in a singleflight
+// group; a reader that STARTS after UpdatePortMapping has returned can join a flight whose storage read happened BEFORE the
+// write, and validates the TunnelOpen against the mapping as it was before the revocation / expiry / deactivation.
+//   U : UpdatePortMapping(M1 := changed) parked at its storage Set          R2: GetPortMapping(M1) read the OLD value, parked in flight
+//   release U (update complete)     O2: TunnelOpen on M1 starts now and joins R2's flight     release R2
+// ---------------------------------------------------------------------------------------------------------------
+type staleIn struct {
+	Mode   string `json:"mode"`
+	Change string `json:"change"` // revoked | exp2s | inactive
+	Secret string `json:"secret"` // none | right
+}
+type staleOut struct {
+	Ack      int    `json:"ack"`       // of the open that started after the update had completed
+	Bridge   bool   `json:"bridge"`    // it created a bridge
+	AckAfter int    `json:"ack_after"` // control: a further open once nothing is in flight (must be refused)
+	PropOK   bool   `json:"prop_ok"`
+	PropMsg  string `json:"prop_msg"`
+	Class    string `json:"class"`
+	SetupErr string `json:"setup_err"`
+}
+
+func runStale(w *world, in staleIn) (out staleOut) {
+	out.PropOK = true
+	cellSeq++
+	base := cellSeq
+	var toRelease []chan struct{}
+	defer func() {
+		for _, c := range toRelease {
+			func() { defer func() { recover() }(); close(c) }()
+		}
+		w.gate.disarm()
+		if r := recover(); r != nil {
+			out.SetupErr = fmt.Sprintf("%v", r)
+			out.PropOK, out.Class, out.PropMsg = false, "setup", "harness: stale-read witness could not be driven: "+fmt.Sprintf("%v", r)
+		}
+	}()
+	key := fmt.Sprintf("sk%d-secret", base)
+	m, err := w.fx.Cloud.CreatePortMapping(&models.PortMapping{ListenClientID: w.L.id, TargetClientID: w.T.id, SecretKey: key,
+		Protocol: models.ProtocolTCP, SourcePort: 18000, TargetHost: "127.0.0.1", TargetPort: 18001, Status: models.MappingStatusActive})
+	must(err)
+	obj, err := w.fx.Cloud.GetPortMapping(m.ID)
+	must(err)
+	switch in.Change {
+	case "revoked":
+		obj.IsRevoked = true
+	case "exp2s":
+		t := time.Now().Add(-2 * time.Second)
+		obj.ExpiresAt = &t
+	case "inactive":
+		obj.Status = models.MappingStatusInactive
+	default:
+		panic("bad change")
+	}
+	wait := func(c chan struct{}, what string) {
+		select {
+		case <-c:
+		case <-time.After(5 * time.Second):
+			panic(what + " did not happen within 5 s")
+		}
+	}
+	// U parks at its Set (its own existence check has completed)
+	w.gate.armSet(m.ID)
+	setParked, setRelease := w.gate.setParked, w.gate.setRelease
+	toRelease = append(toRelease, setRelease)
+	doneU := make(chan error, 1)
+	go func() { doneU <- w.fx.Cloud.UpdatePortMapping(obj) }()
+	wait(setParked, "the update reaching its storage write")
+	// R2 reads the old value and stays in flight
+	w.gate.armAfterRead(m.ID)
+	rdParked, rdRelease := w.gate.parked, w.gate.release
+	toRelease = append(toRelease, rdRelease)
+	doneR := make(chan struct{})
+	go func() { _, _ = w.fx.Cloud.GetPortMapping(m.ID); close(doneR) }()
+	wait(rdParked, "the concurrent reader finishing its storage read")
+	// the update completes
+	close(setRelease)
+	toRelease = toRelease[1:]
+	select {
+	case e := <-doneU:
+		must(e)
+	case <-time.After(5 * time.Second):
+		panic("UpdatePortMapping did not return")
+	}
+	// only NOW does the open start
+	fc, c := w.nextConn()
+	defer func() { fc.Close(); id := c.ID; bounded(func() { _ = w.fx.Session.CloseConnection(id) }) }()
+	w.authTunnelConn(fc, c, w.L, 2)
+	tunnelID := fmt.Sprintf("vs%d", base)
+	req := &packet.TunnelOpenRequest{MappingID: m.ID, TunnelID: tunnelID, SecretKey: secretFor(in.Secret, key, "")}
+	type res struct {
+		a ackObs
+	}
+	doneO := make(chan res, 1)
+	go func() { a, _ := w.tunnelOpen(fc, c, req); doneO <- res{a} }()
+	time.Sleep(40 * time.Millisecond) // let it reach the repository read (it joins the flight or, if it is slow, reads fresh: then nothing is shown)
+	close(rdRelease)
+	toRelease = nil
+	<-doneR
+	select {
+	case r := <-doneO:
+		if r.a.N > 0 {
+			out.Ack = 2
+			if r.a.Success {
+				out.Ack = 1
+			}
+		}
+	case <-time.After(8 * time.Second):
+		panic("the open did not return")
+	}
+	out.Bridge = w.fx.Session.VerifBridge(tunnelID) != nil
+	w.fx.Session.VerifForgetBridge(tunnelID)
+	// control: with nothing in flight the changed mapping is refused
+	fc2, c2 := w.nextConn()
+	defer func() { fc2.Close(); id := c2.ID; bounded(func() { _ = w.fx.Session.CloseConnection(id) }) }()
+	w.authTunnelConn(fc2, c2, w.L, 2)
+	t2 := tunnelID + "b"
+	a2, _ := w.tunnelOpen(fc2, c2, &packet.TunnelOpenRequest{MappingID: m.ID, TunnelID: t2, SecretKey: secretFor(in.Secret, key, "")})
+	if a2.N > 0 {
+		out.AckAfter = 2
+		if a2.Success {
+			out.AckAfter = 1
+		}
+	}
+	w.fx.Session.VerifForgetBridge(t2)
+	if out.Ack == 1 || out.Bridge {
+		out.PropOK, out.Class = false, "stale-read"
+		out.PropMsg = fmt.Sprintf("mapping %s: UpdatePortMapping had RETURNED before the TunnelOpen (listening client, mapping id%s) started, yet the request was validated against the mapping as it was before (ack=%d, bridge created=%v): it joined the singleflight read of a concurrent GetPortMapping that had read storage before the write",
+			in.Change, map[string]string{"none": "", "right": " + secret"}[in.Secret], out.Ack, out.Bridge)
+	}
+	if out.AckAfter == 1 {
+		out.PropOK, out.Class, out.PropMsg = false, "stale-control", "the changed mapping is accepted even with no read in flight"
 	}
 	return out
 }
